@@ -43,7 +43,8 @@ func (b *Bar) SortEvents() {
 }
 
 func (b Bar) Len() uint8 {
-	return b.TimeSig[0] * 32 / b.TimeSig[1]
+	// calculate with a wider type: the numerator times 32 does not fit into uint8 for numerators >= 8 (e.g. 12/8)
+	return uint8(uint(b.TimeSig[0]) * 32 / uint(b.TimeSig[1]))
 }
 
 func (b *Bar) barPos(absTicks int64, ticks smf.MetricTicks) uint8 {
